@@ -58,7 +58,8 @@ def obs_qube(q, parent_mask=None):
         if not mf[i]:
             shown.append([fbits(x) for x in flat[i]] if isz != 1 or q._item_ else fbits(flat[i][0]))
     kind = np.asarray(q._values_).dtype.kind
-    kind = {'f': 'f', 'i': 'i', 'u': 'i', 'b': 'b'}.get(kind, kind)
+    # 'O': a shapeless integer object holds a Python int, which outgrows int64 silently (hidden int64 extremes) - integer kind
+    kind = {'f': 'f', 'i': 'i', 'u': 'i', 'b': 'b', 'O': 'i'}.get(kind, kind)
     units = '-' if q._units_ is None or q._units_ == Units.UNITLESS else 'u' + '_'.join(
         str(e) for e in q._units_.exponents) + '_%r' % (round(float(q._units_.factor), 12),)
     derivs = []
@@ -227,6 +228,7 @@ def eval_nodes(tree, env, variant):
     """post-order evaluation of every node on the real code.
     Returns (list of (path, opname, canonical obs | exception enum), warning list)."""
     out = []
+    bigint = []
     objs = [build(l, variant) for l in env]
 
     def ev(node, path):
@@ -240,6 +242,8 @@ def eval_nodes(tree, env, variant):
             out.append((path, name, C.exc_name(e)))
             raise Raised(C.exc_name(e))
         out.append((path, name, obs(r)))
+        if isinstance(r, Qube) and np.asarray(r._values_).dtype.kind == 'O':
+            bigint.append(name)         # a Python int left the int64 range (shapeless integer object)
         return r
 
     with warnings.catch_warnings(record=True) as wlist:
@@ -249,6 +253,8 @@ def eval_nodes(tree, env, variant):
         except Raised:
             pass
     ws = sorted({'%s:%s' % (type(w.message).__name__, str(w.message)[:40]) for w in wlist})
+    if bigint:
+        ws.append('bigint:' + bigint[0])
     return out, ws
 
 
